@@ -32,7 +32,7 @@ fn utf8(v: &SDS) -> bool {
 }
 
 /// inside the fragment where the executor conforms to M7 and the answer is a function of the state
-fn admissible(cmd: &Command) -> bool {
+pub(crate) fn admissible(cmd: &Command) -> bool {
     match cmd {
         Command::GetSet(_, _) => false,
         Command::GetRange(_, a, b) => !(*a < 0 && *b < 0 && a > b),
@@ -71,7 +71,7 @@ fn bulks(r: &RespValue) -> Vec<Vec<u8>> {
 
 /// the keyspace as a client sees it: every key of the universe read through ROUTED commands
 /// (TYPE, PTTL, the value by type), in the dump syntax of the C01 driver, plus what KEYS * lists
-async fn dump7(st: &State, universe: &[String]) -> String {
+pub(crate) async fn dump7(st: &State, universe: &[String]) -> String {
     let mut keys: Vec<String> = universe.to_vec();
     keys.sort_by(|a, b| key_cmp(a, b));
     let mut parts: Vec<String> = Vec::new();
@@ -199,7 +199,7 @@ async fn run_on(n: usize, steps: &[Step], universe: &[String]) -> Vec<String> {
     out
 }
 
-fn same_shard(ctx: &Ctx, n: usize, c: &Command) -> bool {
+pub(crate) fn same_shard(ctx: &Ctx, n: usize, c: &Command) -> bool {
     let ks = c.get_keys();
     match c {
         Command::Rename(..) | Command::RenameNx(..) | Command::RPopLPush(..) | Command::LMove { .. } | Command::MSetNx(_) => {
